@@ -88,6 +88,27 @@ def inline_axis_helpers(fn, helpers):
     return fn
 
 
+def link_lookup(ctx):
+    """URDF has separate name spaces for links and joints, the System has ONE registry and renames a contribution whose name is taken.  A body
+    that is looked up again through `system.contributions_map[<link name>]` is therefore the wrong object (a joint) - or missing - as soon
+    as a joint carries the name of a link (or a link is called like a contribution the system already owns): the importer has to keep the bodies
+    it creates in a table of its own."""
+    rep = ctx.rep
+    fn = ctx.repo.get(URDF, "system_from_urdf")
+    C = f"{URDF}:system_from_urdf"
+    hits = [w for w in ast.walk(fn) if isinstance(w, ast.Subscript) and (dotted(w.value) or "").endswith("contributions_map")]
+    own = [w for w in ast.walk(fn) if isinstance(w, ast.Subscript) and isinstance(w.value, ast.Name) and isinstance(w.ctx, ast.Load)
+           and norm_src(w.slice).endswith(".name") and w.value.id not in ("configuration", "velocities")]
+    for w in hits:
+        rep.bad("C28.R12", C, w, f"`{norm_src(w)}` resolves a link through the System's single name registry: a joint that carries the name of a link (legal in URDF) makes System.add rename "
+                "the body, and the lookup returns the joint instead (AttributeError in the joint's constructor / assembly)", f"{URDF}:{w.lineno}")
+    if not hits:
+        if own:
+            rep.ok("C28.R12", C, f"links are resolved through the importer's own table (`{norm_src(own[0])}`, {len(own)} lookups)")
+        else:
+            rep.ok("C28.R12", C, "no lookup of a link by name found (no verdict)", verdict="unknown", trivial=True)
+
+
 def rpy_convention(ctx):
     """URDF's <origin rpy="r p y"> is a FIXED-AXIS sequence: roll about X, then pitch about Y, then yaw about Z, i.e. R = Rz(y) Ry(p) Rx(r).
     The nine entries of whatever rpy_to_A returns are brought to a signed-monomial normal form in cos / sin of the three angles (literal
@@ -414,6 +435,8 @@ def run(ctx):
     basis_typing(ctx)
     rep.rule("C28.R7", "axis-bearing joint types build the joint frame and the child's relative motion from joint.axis (taint)", 6)
     axis_used(ctx)
+    rep.rule("C28.R12", "links are resolved through the importer's own table, not through the System's single name registry (URDF: separate name spaces for links and joints)", 1)
+    link_lookup(ctx)
     rep.rule("C28.R11", "rpy_to_A composes URDF's fixed-axis roll-pitch-yaw as Rz(yaw) Ry(pitch) Rx(roll) (signed-monomial normal form of the nine entries)", 1)
     rpy_convention(ctx)
     rep.rule("C28.R10", "transport terms of absolute velocities use absolute angular velocities (naming convention X_omega_YZ: Y = I)", 2)
@@ -644,4 +667,8 @@ NEUTRAL += [
     dict(id="c28-n-r11", canary=True, what="rpy_to_A as the product Rz(yaw) Ry(pitch) Rx(roll) of basic rotations", file=URDF,
          old="    rpy = np.asanyarray(rpy, dtype=np.float64)\n    c3, c2, c1 = np.cos(rpy)\n",
          new="    roll, pitch, yaw = np.asanyarray(rpy, dtype=np.float64)\n    return A_IB_basic(yaw).z @ A_IB_basic(pitch).y @ A_IB_basic(roll).x\n    c3, c2, c1 = np.cos(rpy)\n"),
+]
+MUTANTS += [
+    dict(id="c28-r12-orig", canary=True, what="joint subsystems looked up in system.contributions_map (original defect F52)", file=URDF,
+         old="                kwargs_joint[\"subsystem2\"] = bodies[child.name]\n", new="                kwargs_joint[\"subsystem2\"] = system.contributions_map[child.name]\n", expect="C28.R12"),
 ]
